@@ -399,6 +399,25 @@ def r3_header_table(rep, src):
     per_path = []
     name_paths = []
     window_ok = True
+    # what the header records may be kept as one record (a named tuple defined at module level) instead of one attribute per field:
+    # the construction of the record is the store of its fields, a field read of the construction is that argument
+    def record_fields(call):
+        if not (isinstance(call, ast.Call) and isinstance(call.func, ast.Name)):
+            return None
+        tnode = mod.const_nodes.get('', {}).get(call.func.id)
+        if not (isinstance(tnode, ast.Call) and norm(tnode.func) in ('collections.namedtuple', 'namedtuple') and len(tnode.args) == 2):
+            return None
+        flds = mod_fold(mod, tnode.args[1])
+        if isinstance(flds, str):
+            flds = flds.replace(',', ' ').split()
+        if not isinstance(flds, (list, tuple)) or len(call.args) > len(flds):
+            return None
+        out = dict(zip(flds, call.args))
+        for k_ in call.keywords:
+            if k_.arg not in flds or k_.arg in out:
+                return None
+            out[k_.arg] = k_.value
+        return out if set(out) == set(flds) else None
     for p_ in ps:
         roles = {}
         stores = {}
@@ -410,12 +429,20 @@ def r3_header_table(rep, src):
                 t = norm(n)
                 if t in full and isinstance(n.ctx, ast.Load):
                     return full[t]
-                return self.generic_visit(n)
+                n = self.generic_visit(n)
+                rf = record_fields(n.value) if isinstance(n, ast.Attribute) else None
+                if rf is not None and n.attr in rf:
+                    return rf[n.attr]
+                return n
         for ev in p_.events:
             if ev[0] == 'store' and '.' in ev[1]:
                 v_ = Fwd().visit(core_clone(ev[2]))
                 full[ev[1]] = v_
                 stores[ev[1].rsplit('.', 1)[1]] = v_
+                rf_ = record_fields(v_)
+                if rf_ is not None:
+                    for fld_, arg_ in rf_.items():
+                        stores.setdefault('__' + fld_, arg_)
         for attr, v in stores.items():
             fo = field_of(v)
             if fo is not None and attr.lstrip('_') in AR5:
@@ -462,23 +489,31 @@ def r3_header_table(rep, src):
         rep.fail('C06.R3', f.site, 'data window', 'the file is moved between the header read and tell()', where=f.where)
     else:
         rep.fail('C06.R3', f.site, 'data window', 'offset/end/cur are not initialised as tell(), offset + size, offset', where=f.where)
-    # public properties expose the matching private attribute
-    # (the attribute read interpreted on a member whose private fields hold distinct marks: property(lambda ...), @property, a plain
-    # attribute -- whatever the class uses)
+    # the public accessors answer with what the header says: from_file interpreted (sa.heap, decided bytes) on a header whose fields
+    # are filled to their full width with different digits -- a cut that is one byte off, or an accessor wired to another field, shows
+    # in the value -- and the accessors read on the member it returns (whatever the member keeps the fields in)
     cls = src.cls(M + ':ArMember')
     from .. import heap as H_
-    for pub, priv in (('name', '__name'), ('mtime', '__mtime'), ('owner', '__owner'), ('group', '__group'), ('size', '__size')):
-        heap_ = H_.Heap(mod)
-        marks = {'_ArMember' + q: 'mark of ' + q for q in ('__name', '__mtime', '__owner', '__group', '__size', '__fmode', '__fname')}
-        m_ = heap_.alloc('ArMember', dict(marks))
+    model = {'name': (b'abcdefghijklmnop', 'abcdefghijklmnop'), 'mtime': (b'123456789012', 123456789012), 'owner': (b'345678', 345678), 'group': (b'901234', 901234),
+             'fmode': (b'56789012', b'56789012'), 'size': (b'3456789012', 3456789012)}
+    header = b''.join(model[k_][0] for k_ in ('name', 'mtime', 'owner', 'group', 'fmode', 'size')) + b'`\n'
+    heap_ = H_.Heap(mod, hooks={'.read': lambda it_, a, k: header, '.tell': lambda it_, a, k: 68, 'sys.getfilesystemencoding': lambda it_, a, k: 'utf-8'})
+    it_ = H_.Interp(heap_)
+    try:
+        m_ = it_.call(H_.Closure(f.node, {}, None, f.cls), [heap_.alloc('File', {}, name='@fp'), None])
+    except H_.Raised as x_:
+        m_ = None
+        rep.fail('C06.R3', f.site, 'a header with full-width fields', 'from_file raises %s (line %d)' % (x_.exc, x_.lineno), where=f.where)
+    for pub in (('name', 'mtime', 'owner', 'group', 'size', 'fmode') if m_ is not None else ()):
         try:
-            got_ = H_.Interp(heap_).ev(ast.parse('m.%s' % pub, mode='eval').body, {'m': m_}, None)
+            got_ = it_.ev(ast.parse('m.%s' % pub, mode='eval').body, {'m': m_}, None)
+            got_ = got_.concrete() if hasattr(got_, 'concrete') else got_
         except (H_.Raised, AnalysisError) as x_:
             got_ = 'raises %s' % x_
-        if got_ == 'mark of ' + priv:
-            rep.ok('C06.R3', M + ':ArMember.' + pub, 'property', 'self.' + priv, nontrivial=False)
+        if got_ == model[pub][1]:
+            rep.ok('C06.R3', M + ':ArMember.' + pub, 'property', 'answers with the %s field of the header' % pub, nontrivial=False)
         else:
-            rep.fail('C06.R3', M + ':ArMember.' + pub, 'property', '%s does not expose self.%s (reading it gives %r)' % (pub, priv, got_))
+            rep.fail('C06.R3', M + ':ArMember.' + pub, 'property', '%s answers %r for a header whose %s field holds %r' % (pub, got_, pub, model[pub][0]))
     _ = cls
     return dict(func=f, name_paths=name_paths, cut_of=cut_of)
 
